@@ -60,10 +60,13 @@ func (f *globalMaxInflight) TryAcquireN(instance string, n int32) bool {
 func (f *globalMaxInflight) ReleaseN(instance string, n int32) {
 }
 
-func (f *globalMaxInflight) add(n int32) int32 {
+// add adds n to the running total and returns by how much the total now exceeds the limit. The excess is computed
+// in 64 bits from the total before the addition: a report at the int32 extreme wraps the 32-bit total around, and the
+// wrapped difference looked like room whenever the total already was above a lowered limit.
+func (f *globalMaxInflight) add(n int32) int64 {
 	count := atomic.AddInt32(&f.count, n)
 	max := atomic.LoadInt32(&f.max)
-	return count - max
+	return int64(count-n) + int64(n) - int64(max)
 }
 
 func (f *globalMaxInflight) SetState(instance string, requestId int64, current int32) (bool, int32, error) {
